@@ -24,7 +24,7 @@ BASE_LINES = ["start:\tmov #start, r0", "\t.word 1, 2", "\tadd r1, r2", "lp:\tso
 IMG = None
 DEFAULT_W = ["implicit-operand", "not-implemented", "label-fixup", "excess-hash"]
 NONDEFAULT_W = ["suspicious-name", "excess-quote", "missing-newline", "meta-typo", "legacy-deferred", "implicit-index"]
-W_SELECTIONS = [[], ["-Wall"], ["-Wno-all"], ["-Wdefault"]] + [["-Wno-" + w] for w in DEFAULT_W] + [["-W" + w] for w in NONDEFAULT_W[:4]]
+W_SELECTIONS = [[], ["-Wall"], ["-Wno-all"], ["-Wdefault"], ["-Wno-implicit-accumulator"], ["-Wno-default"]] + [["-Wno-" + w] for w in DEFAULT_W] + [["-W" + w] for w in NONDEFAULT_W[:4]]
 OUTPUTS = [
     ("none", [], "", []),
     ("o-bin", ["-o", "x.bin"], "", ["x.bin"]),
@@ -41,7 +41,7 @@ def bound(tier):
         "pairs and triples" if tier == "thorough" else "pairs")
 
 
-def plant(fault_ids, positions, layout):
+def plant(fault_ids, positions, layout, no_final_newline=False):
     """returns (tree, argv files). faults are inserted as tab-indented lines at the given positions of the base program"""
     lines = list(BASE_LINES)
     ins = sorted(zip(positions, fault_ids), key=lambda x: -x[0])
@@ -51,7 +51,7 @@ def plant(fault_ids, positions, layout):
         frag = ["\t" + l for l in e["text"].split("\n")]
         lines[pos:pos] = frag
         tree.update(e["tree"])
-    text = "\n".join(lines) + "\n"
+    text = "\n".join(lines) + ("" if no_final_newline else "\n")
     if layout == "one":
         tree["m.mac"] = text
         return tree, ["m.mac"]
@@ -94,6 +94,8 @@ SWEEP = {
     "warn-then-critical": ["w-legacy-deferred", "unterminated-string"],
     "err-in-repeat": ["label-in-repeat"],
     "err-user": ["user-error"],
+    "err-shares-warning-id-1": ["hash-in-meta"],
+    "err-shares-warning-id-2": ["fp-bad-acc"],
 }
 
 
@@ -173,7 +175,7 @@ def phase_of(case):
 def check(case, r, tier):
     k = case["k"]
     if k == "replay":
-        tree, files = plant(case["faults"], case["positions"], case["layout"])
+        tree, files = plant(case["faults"], case["positions"], case["layout"], no_final_newline=case.get("nonl", False))
         exp = any(faults.BY_ID[i]["sev"] == "error" for i in case["faults"])
         out = [o for o in OUTPUTS if o[0] == case["output"]][0]
         run(tree, files, case["fmt"], case["w"], out, case["lst"], r, None, case, exp)
@@ -183,14 +185,16 @@ def check(case, r, tier):
         e = faults.BY_ID[fid]
         exp = e["sev"] == "error"
         for layout in ("one", "two", "include"):
-            for pos in (0, 2, 5):
-                tree, files = plant([fid], [pos], layout)
-                c = {"k": "replay", "faults": [fid], "positions": [pos], "layout": layout}
+            for pos in (0, 2, 5, "eof"):
+                nonl = pos == "eof"
+                pos = 5 if nonl else pos
+                tree, files = plant([fid], [pos], layout, no_final_newline=nonl)
+                c = {"k": "replay", "faults": [fid], "positions": [pos], "layout": layout, "nonl": nonl}
                 for fmt in FORMATS:
-                    for wsel in ([], ["-Wall"], ["-Wno-all"]):
-                        for oi, output in enumerate(OUTPUTS[:4] if layout != "one" else OUTPUTS):
+                    for wsel in ([], ["-Wall"], ["-Wno-all"], ["-Wno-implicit-accumulator", "-Wno-excess-hash"]):
+                        for oi, output in enumerate(OUTPUTS[:4] if (layout != "one" or nonl) else OUTPUTS):
                             lst = (oi + pos) % 2 == 0
-                            run(tree, files, fmt, wsel, output, lst, r, (fid, layout, pos, fmt, tuple(wsel), output[0], lst), c, exp)
+                            run(tree, files, fmt, wsel, output, lst, r, (fid, layout, pos, nonl, fmt, tuple(wsel), output[0], lst), c, exp)
         return
     if k in ("pairs", "triples"):
         ids = [e["id"] for e in faults.E]
